@@ -112,8 +112,43 @@ def vh(args, stdin=None, race=False, timeout=1800, env=None, check=True):
     return r.returncode, r.stdout, r.stderr
 
 
+def crash_in_code_under_test(stderr):
+    """The Go runtime killed the harness with an unrecoverable error (stack overflow from unbounded recursion, concurrent map
+    access, ...) or an uncaught panic, and the innermost non-runtime frame belongs to the code under test: returns
+    (message, frame), else None.  Such a death while replaying a specified behaviour is a disagreement, not a broken driver."""
+    m = re.search(r"^(fatal error: .*|panic: .*)$", stderr, flags=re.M)
+    if not m:
+        return None
+    tail = stderr[m.end():]
+    g = re.search(r"^goroutine \d+ .*\[running\]:\n", tail, flags=re.M)
+    if not g:
+        return None
+    for ln in tail[g.end():].splitlines():
+        if not ln or ln.startswith(("\t", " ")):
+            continue
+        if ln.startswith(("runtime.", "runtime/", "reflect.", "internal/", "panic(", "sync.", "syscall.")):
+            continue
+        if ln.startswith("github.com/GuanceCloud/platypus/"):
+            return m.group(1)[:200], ln.rsplit("(", 1)[0]
+        return None
+    return None
+
+
 def vh_json(args, **kw):
-    rc, out, err = vh(args, **kw)
+    kw2 = dict(kw)
+    kw2["check"] = False
+    rc, out, err = vh(args, **kw2)
+    if rc != 0:
+        crash = crash_in_code_under_test(err)
+        if crash:
+            msg, frame = crash
+            return {"evaluations": 1, "distinct": 0, "samples": [{"crashed_in": frame}], "extra": {"aborted_by_crash": True},
+                    "mismatches": [{"sig": "crash:%s:%s" % (msg, frame), "vec": None,
+                                    "detail": {"crash": msg, "frame": frame, "stderr": err[-5000:],
+                                               "note": "the code under test brought the process down while a specified behaviour was "
+                                                       "replayed; the rest of this stage was not run"}}]}
+        if kw.get("check", True):
+            raise Broken("harness vh %s exited %d:\n%s" % (" ".join(args[:4]), rc, err[-4000:]))
     try:
         return json.loads(out)
     except Exception:
